@@ -454,14 +454,16 @@ From PV Require Import Base.PySlice Base.NpSearch C16.Model C16.Spec C03.Model C
    in increasing id order, its scaled zero-padded raw window on the requested channels, zero on the channels not stored
    for that spike ([masked_window], C03_store_masked); whenever compute_features answers on W -- whatever components
    the oracle returns -- get_features answers with one row per requested id, the row of a requested stored spike being
-   its row of compute_features(W) and the row of a spike the store does not hold being zero. *)
+   its row of compute_features(W) and the row of a spike the store does not hold being zero.
+   ([refers ids spikes x sp]: sp is the stored spike at the last position of x in the store's id vector, as in C03_store --
+   the only position when the stored ids are distinct, which is not needed.) *)
 Theorem C06_link_waveform_route : forall (R : Type) (radd rmul : R -> R -> R) (rzero : R)
     (pcs_of : list (list (list R)) -> list (list (list R))) (scale : R -> R) (c : Z) (data : list (list R))
     (traces : option (list (list R))) (samples : list Z) (n nch ncs : Z) (chunks : list iv) (spikes : list spike)
     (kf : fkind) (ids q_ids q_ch : list Z),
   rect c data -> 1 <= c -> 1 <= n -> 0 <= ncs -> spikes_ok (NpSearch.zlen data) c ncs spikes ->
   Tiles (NpSearch.zlen data) chunks ->
-  NoDup ids -> Forall (fun x => 0 <= x) ids -> NpSearch.zlen ids = NpSearch.zlen spikes ->
+  Forall (fun x => 0 <= x) ids -> NpSearch.zlen ids = NpSearch.zlen spikes ->
   NoDup q_ids -> (forall x, In x q_ids -> 0 <= x) ->
   q_ch <> [] -> NoDup q_ch -> Forall (fun ch => -1 <= ch) q_ch ->
   let exist := C06.Model.intersect1d q_ids ids in
@@ -486,7 +488,7 @@ Theorem C06_link_waveform_route_store : forall (R : Type) (radd rmul : R -> R ->
     (pcs_of : list (list (list R)) -> list (list (list R))) (scale : R -> R) (c : Z) (data : list (list R))
     (traces : option (list (list R))) (samples : list Z) (n nch : Z) (spikes : list spike) (ids q_ids q_ch : list Z),
   1 <= n -> Forall (fun sp => chans_ok c (sp_ch sp)) spikes ->
-  NoDup ids -> Forall (fun x => 0 <= x) ids -> NpSearch.zlen ids = NpSearch.zlen spikes ->
+  Forall (fun x => 0 <= x) ids -> NpSearch.zlen ids = NpSearch.zlen spikes ->
   NoDup q_ids -> (forall x, In x q_ids -> 0 <= x) ->
   q_ch <> [] -> NoDup q_ch -> Forall (fun ch => -1 <= ch) q_ch ->
   let st := C03.Model.mkstore ids (map sp_ch spikes) (scaled_windows rzero scale data n spikes) in
